@@ -67,6 +67,17 @@ def make_files(T, n_atoms, formats, d, tag="", cell=True):
         if not os.path.exists(p):
             if fmt == "arc":
                 write_arc(p, T, n_atoms)
+            elif fmt == "dcd0.dcd":
+                # a DCD whose header frame count (NSET) was never filled in: the reader derives the number
+                # of frames from the file size (supported by dcdplugin); the cursor contract is the same
+                import struct
+                try:
+                    t.save(p)
+                except (ValueError, TypeError):
+                    make_traj(T, n_atoms, True).save(p)
+                with open(p, "r+b") as fh:
+                    fh.seek(8)
+                    fh.write(struct.pack("<i", 0))
             else:
                 try:
                     t.save(p)
@@ -113,7 +124,7 @@ def traj_obs(t):
             "top_atoms": [a.residue.resSeq - 1 for a in t.topology.atoms] if t.topology is not None else None}
 
 
-UNIT = {"h5": 1.0, "xtc": 1.0, "trr": 1.0, "dcd": 10.0, "nc": 10.0, "mdcrd": 10.0, "xyz": 10.0,
+UNIT = {"dcd0.dcd": 10.0, "h5": 1.0, "xtc": 1.0, "trr": 1.0, "dcd": 10.0, "nc": 10.0, "mdcrd": 10.0, "xyz": 10.0,
         "lammpstrj": 10.0, "dtr": 10.0, "arc": 10.0, "gro": 1.0, "lh5": 1.0, "netcdf": 10.0}
 
 
